@@ -20,7 +20,8 @@ RULE = ("histories of drop-in operations (add / re-add / remove / failing add: u
         "reversibility; thorough: length <= 4, length <= 2 x 64 combinations and 40000 random. non-trivial = at least two accepted adds and (a removal, a refused add or a re-add)")
 ASSUMPTIONS = [
     "plugins and prekill hooks are scripted (harness/h_dropin.cpp); a hook's canRunOnCgroup is a set of probe names",
-    "rulesets have no `cgroup` (ruleset-level cgroup instances are C11)",
+    "a fifth of the histories give base rulesets a ruleset-level `cgroup` (and half of those an xattr_filter) that exactly one cgroup "
+    "matches and passes; what per-cgroup instances are beyond that is C11's subject",
     "fewer than 2^31 drop-ins (numTargeted_ and the statistics are 32-bit)",
     "a drop-in whose compile fails is not queued at all (DropInServiceAdaptor::scheduleDropInAdd returns false): "
     "a previous drop-in with the same tag stays active - what the file watcher does then is C14",
